@@ -410,7 +410,18 @@ func drawC07(t *rapid.T) c07Case {
 		gi, ei := ensureCond()
 		ce := &c.Policy.Groups[gi].Conds[ei]
 		ci := rapid.IntRange(0, len(ce.Conds)-1).Draw(t, "ci")
-		idx := []uint32{6, 7, 8, 64, 1 << 31, 0xffffffff, 0x20000000, 0x1ffffffe}[rapid.IntRange(0, 7).Draw(t, "badIdx")]
+		var idx uint32
+		switch rapid.IntRange(0, 3).Draw(t, "badIdxKind") {
+		case 0:
+			idx = []uint32{6, 7, 8, 64, 1 << 31, 0xffffffff, 0x20000000, 0x1ffffffe}[rapid.IntRange(0, 7).Draw(t, "badIdx")]
+		case 1:
+			idx = uint32(rapid.IntRange(6, 300).Draw(t, "badIdxSmall"))
+		case 2:
+			// indices whose byte offset 16+8*idx wraps around 2^32 onto a valid argument (or just beside one)
+			idx = uint32(rapid.IntRange(1, 7).Draw(t, "wrapM"))<<29 + uint32(rapid.IntRange(0, 7).Draw(t, "wrapK")) - uint32(rapid.IntRange(0, 2).Draw(t, "wrapD"))
+		default:
+			idx = rapid.Uint32Range(6, 0xffffffff).Draw(t, "badIdxAny")
+		}
 		ce.Conds[ci].Arg = idx
 		c.Injected = fmt.Sprintf("argument index %d at condition %d of entry %d of group %d", idx, ci, ei, gi)
 	case 9, 10:
